@@ -311,6 +311,23 @@ CHECKS['C11'] = dict(
     assumptions=['old-format records are gob encodings of struct{SourceEpoch,TargetEpoch int64} / struct{Slot int64}, as the Decode fallback reads them'],
 )
 
+CHECKS['C18'] = dict(
+    pkg='c18', level='exploration',
+    technique='model-based property testing: rapid-generated wallet/account populations, permission configurations from the regex AST grammar, path lists and run-time account creation (single and distributed); oracle L subset-of returned subset-of U from the reference permission model, names and keys against ground truth',
+    level_text=('Each case builds a two-instance cluster whose first instance has 1-3 non-deterministic wallets with 0-8 accounts (names over the C07 alphabet) and a distributed wallet, a generated '
+                'permission configuration with per-account patterns and mixed Access account / ~Access account / None / All items, and runs up to 8 actions: list(client, 1-4 paths: wallet only, '
+                'wallet/pattern from the AST grammar, trailing slash, unknown wallet, empty string, "/x", invalid expression, wrong-case wallet) through the service or the gRPC handler, '
+                'create (real single-participant generation) and create-distributed (real 2-of-2 key generation). Every returned account must lie in a requested wallet and be accessible by the '
+                'reference evaluator (U); every accessible account whose name whole-matches a requested pattern (own AST matcher, case-sensitive) must be returned (L); names, public keys, '
+                'share and composite keys must equal what creation returned, immediately after creation.'),
+    level_note='Over-matching of a path pattern (e.g. the lister\'s partial anchoring of alternations, case) is allowed by the statement as long as the account is accessible; only L subset-of returned subset-of U is asserted.',
+    parts=[part('TestC18', 200, 2000, qshards=2)],
+    rule=('a case is a population + configuration + 1-8 actions; non-trivial iff some listing had a non-empty L while the client could not access every account of the named wallets, or a non-empty listing '
+          'followed a run-time creation; distinct = sha256 of the case JSON'),
+    essential=['listings', 'accounts-returned', 'listings-with-partial-access', 'listings-after-dynamic-creation', 'accounts-created-at-run-time', 'distributed-accounts-created-at-run-time'],
+    assumptions=['ASCII names only'],
+)
+
 ENGINES = [
     dict(name='rapid-harness', path='/verif/harness', kind_free_text='Go test module (pgregory.net/rapid v1.3.0) compiled against /repo with -tags verif; driver /verif/check shards by seed, merges coverage, writes evidence',
          serves_properties=sorted(CHECKS)),
